@@ -188,9 +188,138 @@ example : Lawful toyAlg ∧
 end Rsj.Num
 
 namespace Rsj.Dec
-open Rsj.Dec
 
--- (theorems about literals and rounding are appended below)
+/-! ### literals -/
+
+/-- **C06 lex_number_value.** Whenever `lex_number` accepts a text as one number token, the
+    token `(digits, exp)` is exactly the pair `(n, e)` of the specification `literalValue`
+    (`n · 10^e`: underscores ignored, integer and fraction digits read as one integer, scaled
+    by the explicit exponent minus the number of fraction digits) — for every literal shape. -/
+theorem C06_lex_number_value {text : List Char} {ds : List Nat} {e : Int}
+    (h : lexNumber text = .ok (ds, e, [])) : (ofDigits ds, e) = literalValue text :=
+  lexNumber_value h
+
+/-- **C06 reassembly_value.** The text `format!("{}e{}", digits, exp)` that the analyzer hands
+    to `str::parse::<f64>` is a well-formed decimal denoting the same `n · 10^e`. -/
+theorem C06_reassembly_value {text : List Char} {ds : List Nat} {e : Int} {rest : List Char}
+    (h : lexNumber text = .ok (ds, e, rest)) :
+    sciValue (reassemble ds e) = some (false, ofDigits ds, e) := by
+  obtain ⟨h1, h2⟩ := lexNumber_digits h
+  exact reassemble_value ds e h2 h1
+
+/-- Both together: what reaches `parse::<f64>` denotes the rational of the literal. -/
+theorem C06_literal_denotes {text : List Char} {ds : List Nat} {e : Int}
+    (h : lexNumber text = .ok (ds, e, [])) :
+    sciValue (reassemble ds e) = some (false, (literalValue text).1, (literalValue text).2) := by
+  rw [C06_reassembly_value h, ← C06_lex_number_value h]
+
+/-- **C06 exp_overflow.** After the digits have been accepted, `ExpOverflow` is reported
+    exactly when the explicit exponent does not fit `u64` (`none`), does not fit `i64`, or the
+    effective exponent `implicit ± explicit` leaves `i64`. (Note: an explicit exponent
+    `≥ 2^63` is rejected even when the effective exponent would fit, e.g. `0.1e9223372036854775808`.) -/
+theorem C06_exp_overflow_iff (acc : Acc) :
+    finish acc = .error .expOverflow ↔
+      (acc.explicitExp = none ∨ ∃ E : Nat, acc.explicitExp = some E ∧
+        (E > 2 ^ 63 - 1 ∨
+         (if acc.expNeg then acc.implicitExp - (E : Int) else acc.implicitExp + (E : Int)) < -(2 ^ 63) ∨
+         (if acc.expNeg then acc.implicitExp - (E : Int) else acc.implicitExp + (E : Int)) > 2 ^ 63 - 1)) := by
+  unfold finish I64_MAX
+  cases hE : acc.explicitExp with
+  | none => simp
+  | some E =>
+    simp only [Option.some.injEq, exists_eq_left', false_or, reduceCtorEq]
+    by_cases h1 : E > 2 ^ 63 - 1
+    · simp [h1]
+    · simp only [h1, if_false, false_or]
+      cases hn : acc.expNeg
+      · simp only [Bool.false_eq_true, if_false]
+        by_cases hP : acc.implicitExp + (E : Int) < -(2 ^ 63) ∨ acc.implicitExp + (E : Int) > 2 ^ 63 - 1
+        · rw [if_pos hP]; exact ⟨fun _ => hP, fun _ => rfl⟩
+        · rw [if_neg hP]; exact ⟨fun h => (by cases h), fun h => absurd h hP⟩
+      · simp only [if_true]
+        by_cases hP : acc.implicitExp - (E : Int) < -(2 ^ 63) ∨ acc.implicitExp - (E : Int) > 2 ^ 63 - 1
+        · rw [if_pos hP]; exact ⟨fun _ => hP, fun _ => rfl⟩
+        · rw [if_neg hP]; exact ⟨fun h => (by cases h), fun h => absurd h hP⟩
+
+/-- The only error `finish` can report is `ExpOverflow`. -/
+theorem C06_finish_errors (acc : Acc) (e : LexErr) (h : finish acc = .error e) : e = .expOverflow := by
+  unfold finish at h
+  split at h
+  · cases h; rfl
+  · next E hE =>
+    by_cases hgt : E > I64_MAX
+    · simp only [hgt, if_true] at h; cases h; rfl
+    · simp only [hgt, if_false] at h
+      cases hn : acc.expNeg
+      · simp only [hn, Bool.false_eq_true, if_false] at h
+        split at h
+        · cases h; rfl
+        · cases h
+      · simp only [hn, if_true] at h
+        split at h
+        · cases h; rfl
+        · cases h
+
+/-! ### rounding -/
+
+/-- **C06 nearest_even_unique.** At most one binary64 bit pattern (or the overflow marker)
+    is the round-to-nearest-even image of a rational `num / den`. -/
+theorem C06_nearest_even_unique {num den b1 b2 : Nat}
+    (h1 : isNearestEven num den b1 = true) (h2 : isNearestEven num den b2 = true) : b1 = b2 :=
+  nearestEven_unique h1 h2
+
+/-- Consequently a decimal that is the nearest-even pre-image of two different doubles does
+    not exist: "reads back as the same double" in `isShortestRT` is well defined. -/
+theorem C06_round_functional {num den b : Nat} (h : isNearestEven num den b = true)
+    (hr : isNearestEven num den (roundNE num den) = true) : roundNE num den = b :=
+  nearestEven_unique hr h
+
+/-- NOT PROVED (validated by checks/c06.py against Python's correctly rounded
+    `Fraction -> float` on random rationals, midpoints and decimal literals): the executable
+    `roundNE` always satisfies the specification.  Missing: correctness of `floorBits`
+    (`Nat.log2` bracket) — only needed for the driver, no theorem above depends on it. -/
+def C06_roundNE_correct_full : Prop :=
+  ∀ num den : Nat, 0 < den → isNearestEven num den (roundNE num den) = true
+
+/-- Proved part: if either candidate of `roundNE` is the nearest-even image, `roundNE` returns it. -/
+theorem C06_roundNE_correct_partial {num den b : Nat} (h : isNearestEven num den b = true)
+    (hb : b = floorBits num den ∨ b = floorBits num den + 1) : roundNE num den = b := by
+  unfold roundNE
+  dsimp only
+  split
+  · next hf => exact nearestEven_unique hf h
+  · next hf =>
+    rcases hb with rfl | rfl
+    · exact absurd h hf
+    · rfl
+
+/-! ### non-vacuity -/
+
+deriving instance DecidableEq for Except
+
+example : lexNumber "1_000.5e-3".toList = .ok ([1, 0, 0, 0, 5], -4, []) := by decide
+example : literalValue "1_000.5e-3".toList = (10005, -4) := by decide
+example : lexNumber "0.001+x".toList = .ok ([0, 0, 0, 1], -3, ['+', 'x']) := by decide
+example : lexNumber "01".toList = .error .leadingZero := by decide
+example : lexNumber "1_.5".toList = .error .missingDigitAfterUnderscore := by decide
+example : lexNumber "1e99999999999999999999".toList = .error .expOverflow := by decide
+example : lexNumber "0.1e9223372036854775808".toList = .error .expOverflow := by decide
+example : sciValue (reassemble [0, 0, 0, 1] (-3)) = some (false, 1, -3) := by decide
+-- 0.1 rounds to 0x3FB999999999999A and to nothing else; 2^1024 - 2^970 is the overflow tie
+set_option exponentiation.threshold 4096 in
+example : isNearestEven 1 10 0x3FB999999999999A = true := by decide
+set_option exponentiation.threshold 4096 in
+example : isNearestEven 1 10 0x3FB9999999999999 = false := by decide
+set_option exponentiation.threshold 4096 in
+example : isNearestEven (2 ^ 1024 - 2 ^ 970) 1 INF_BITS = true := by decide
+set_option exponentiation.threshold 4096 in
+example : isNearestEven (2 ^ 1024 - 2 ^ 970 - 1) 1 0x7FEFFFFFFFFFFFFF = true := by decide
+set_option maxRecDepth 20000 in
+set_option exponentiation.threshold 4096 in
+example : isShortestRT 0x3FB999999999999A "0.1".toList = true := by decide
+set_option maxRecDepth 20000 in
+set_option exponentiation.threshold 4096 in
+example : isShortestRT 0x3FB999999999999A "0.10000000000000001".toList = false := by decide
 
 end Rsj.Dec
 
@@ -204,3 +333,19 @@ open Rsj.Num in
 #print axioms C06_no_nan_reaches_compare
 open Rsj.Num in
 #print axioms C06_every_site_modelled
+open Rsj.Dec in
+#print axioms C06_lex_number_value
+open Rsj.Dec in
+#print axioms C06_reassembly_value
+open Rsj.Dec in
+#print axioms C06_literal_denotes
+open Rsj.Dec in
+#print axioms C06_exp_overflow_iff
+open Rsj.Dec in
+#print axioms C06_finish_errors
+open Rsj.Dec in
+#print axioms C06_nearest_even_unique
+open Rsj.Dec in
+#print axioms C06_round_functional
+open Rsj.Dec in
+#print axioms C06_roundNE_correct_partial
